@@ -32,6 +32,7 @@ divergenceTolerance".  models/codec_c18.py only labels which field a fault hit.
 from __future__ import annotations
 
 import math
+import os
 import random
 import re
 import resource
@@ -48,9 +49,11 @@ LEVEL = "fault_enumeration"
 
 LATTICE_N = 5
 SEEDS = {"quick": 3, "thorough": 8}
+ENUM_BUDGET = 300.0  # seconds per program for generating its scenes
 MAX_SCENES = 4000  # per program; the family is built to stay far below (cap => HarnessError)
-DECODE_TIMEOUT = 10.0  # seconds: a decode (normally < 1 ms) still running after this long is a hang
-FAST_TIMEOUT = 0.5  # first look; a decode exceeding it is re-run with DECODE_TIMEOUT before it is called a hang
+DECODE_TIMEOUT = 5.0  # CPU seconds: a decode (normally < 1 ms) still computing after this long is a hang
+FAST_TIMEOUT = 1.0  # first look; a decode exceeding it is re-run with DECODE_TIMEOUT before it is called a hang
+REPLAY_FAULT_RECORDINGS = {"quick": 2, "thorough": 30}  # per program: the first recordings (enumeration order) get every replay fault
 HANG_REPEATS = 2  # after this many confirmed hangs at the same (offset, edit) of a program, later scenes skip that edit
 RSS_GROWTH_LIMIT_KB = 400 * 1024  # a single decode growing the process by more is reported
 EDITS = (("xor01", lambda b: b ^ 0x01), ("xor80", lambda b: b ^ 0x80), ("zero", lambda b: 0x00), ("ff", lambda b: 0xFF))
@@ -63,22 +66,32 @@ class _Timeout(BaseException):
 
 
 def _alarm(signum, frame):
+    if os.environ.get("C18_DEBUG"):
+        import traceback
+
+        print("C18 alarm after", time.process_time() - _GUARD_T0[0], "cpu s", flush=True)
+        traceback.print_stack(frame, limit=14)
     raise _Timeout()
 
 
+_GUARD_T0 = [0.0]
+
+
 class guarded:
-    """Per-decode wall clock guard (SIGALRM) — a hang becomes an observable outcome."""
+    """Per-decode CPU-time guard (ITIMER_VIRTUAL: user CPU seconds of this process, so a busy
+    machine cannot fake a hang) — a decode that keeps computing becomes an observable outcome."""
 
     def __init__(self, limit=None):
         self.limit = limit or DECODE_TIMEOUT
 
     def __enter__(self):
-        self.old = signal.signal(signal.SIGALRM, _alarm)
-        signal.setitimer(signal.ITIMER_REAL, self.limit)
+        self.old = signal.signal(signal.SIGVTALRM, _alarm)
+        _GUARD_T0[0] = time.process_time()
+        signal.setitimer(signal.ITIMER_VIRTUAL, self.limit)
 
     def __exit__(self, *a):
-        signal.setitimer(signal.ITIMER_REAL, 0)
-        signal.signal(signal.SIGALRM, self.old)
+        signal.setitimer(signal.ITIMER_VIRTUAL, 0)
+        signal.signal(signal.SIGVTALRM, self.old)
         return False
 
 
@@ -213,8 +226,9 @@ def compile_scenario(text, opts=None, **over):
     return scenic.scenarioFromString(text, mode2D=bool(o.get("mode2D")), params=o.get("params", {}))
 
 
-def enumerate_scenes(scenario, mode, tier):
-    """All scenes of the scenario: list of (origin, scene).  origin = choice list / seed."""
+def enumerate_scenes(scenario, mode, tier, keep=None):
+    """All scenes of the scenario: list of (origin, scene).  origin = choice list / seed.
+    keep(scene) -> what to retain instead of the (heavy) scene object."""
     import numpy
     from scenic.core.distributions import RejectionException
 
@@ -229,7 +243,7 @@ def enumerate_scenes(scenario, mode, tier):
             except RejectionException:
                 rejected += 1
                 continue
-            out.append((("seed", s), scene))
+            out.append((("seed", s), keep(scene) if keep else scene))
         return out, rejected
 
     def once():
@@ -240,12 +254,15 @@ def enumerate_scenes(scenario, mode, tier):
         return scene
 
     clock = seams.ScriptedClock(chooser=lambda i: 1.0)
+    t0 = time.time()
     with seams.rng_seam(mode="lattice" if mode == "lattice" else "exact", lattice_n=LATTICE_N), seams.clock_seam(clock):
         for ex, scene, stats in explorer.explore(once, max_executions=MAX_SCENES):
             if scene is None:
                 rejected += 1
             else:
-                out.append((("path", tuple(ex.choices)), scene))
+                out.append((("path", tuple(ex.choices)), keep(scene) if keep else scene))
+            if time.time() - t0 > ENUM_BUDGET:
+                raise HarnessError(f"scene enumeration exceeds {ENUM_BUDGET}s: the program does not belong in this family")
         if stats.capped:
             raise HarnessError(f"scene enumeration capped at {MAX_SCENES}")
     return out, rejected
@@ -268,11 +285,17 @@ def regenerate(scenario, origin):
 # ---------------------------------------------------------------------------------
 
 
-def decode(scenario, data, limit=FAST_TIMEOUT):
-    """('scene', scene) | ('refused', msg) | ('escape', exc type, msg) | ('hang',) | ('memory', kB)"""
+def decode(scenario, data, limit=FAST_TIMEOUT, confirmed=None, kind=None):
+    """('scene', scene) | ('refused', msg) | ('escape', exc type, msg) | ('hang',) | ('memory', kB)
+
+    A decode exceeding FAST_TIMEOUT is re-run with DECODE_TIMEOUT before it is called a hang;
+    once a hang in field `kind` has been confirmed that way for this program (`confirmed` set),
+    later time-outs in the same kind of field are not re-confirmed."""
     out = _decode(scenario, data, limit)
-    if out[0] == "hang" and limit < DECODE_TIMEOUT:
+    if out[0] == "hang" and limit < DECODE_TIMEOUT and not (confirmed is not None and kind in confirmed):
         out = _decode(scenario, data, DECODE_TIMEOUT)  # confirm with the full budget
+        if out[0] == "hang" and confirmed is not None:
+            confirmed.add(kind)
     return out
 
 
@@ -338,7 +361,16 @@ def _origin_json(origin):
     return [origin[0], list(origin[1]) if isinstance(origin[1], tuple) else origin[1]]
 
 
-def check_encoding(prog, scenA, scenB, origin, scene, st, viol, do_faults=True, only=None, pstate=None):
+def encode_scene(scenario, scene):
+    """(snapshot, bytes) of a scene, or (snapshot, exception)."""
+    snap = scene_snapshot(scene)
+    try:
+        return snap, scenario.sceneToBytes(scene)
+    except Exception as e:  # noqa: BLE001 - observed by check_encoding
+        return snap, e
+
+
+def check_encoding(prog, scenA, scenB, origin, encoded, st, viol, do_faults=True, only=None, pstate=None):
     """Round trip + fault enumeration of one scene.  `only` restricts to one fault (replay).
 
     pstate (per program): encodings already fault-enumerated (decoding is a function of the
@@ -349,11 +381,10 @@ def check_encoding(prog, scenA, scenB, origin, scene, st, viol, do_faults=True, 
     if pstate is None:
         pstate = {"seen": set(), "hangs": {}}
 
-    snap0 = scene_snapshot(scene)
-    try:
-        data = scenA.sceneToBytes(scene)
-    except SerializationError as e:
-        viol.append((f"encode-refused:{feat}", f"sceneToBytes raised SerializationError({e}) for a scene of built-in distributions\n{text}", _case("roundtrip", prog, origin=_origin_json(origin))))
+    snap0, data = encoded
+    if isinstance(data, Exception):
+        kind = "encode-refused" if isinstance(data, SerializationError) else f"encode-error:{type(data).__name__}"
+        viol.append((f"{kind}:{feat}", f"sceneToBytes raised {data!r} for a scene of built-in distributions\n{text}", _case("roundtrip", prog, origin=_origin_json(origin))))
         return None
     st["encodings"] += 1
     st["bytes"] += len(data)
@@ -439,7 +470,7 @@ def check_encoding(prog, scenA, scenB, origin, scene, st, viol, do_faults=True, 
                 if pstate["hangs"].get((off, ename), 0) >= HANG_REPEATS and only is None:
                     st["hang_skipped"] += 1
                     continue
-                out = decode(scenA, bad)
+                out = decode(scenA, bad, confirmed=pstate.setdefault("confirmed", set()), kind=kind)
                 if out[0] == "hang":
                     pstate["hangs"][(off, ename)] = pstate["hangs"].get((off, ename), 0) + 1
                 st["corruptions"] += 1
@@ -488,14 +519,14 @@ def check_static(item):
         raise HarnessError(f"C18 program {name} does not compile: {e!r}\n{text}")
     res["hash"] = (scenA.astHash.hex(), scenA.compileOptions.hash.hex())
     try:
-        scenes, rejected = enumerate_scenes(scenA, mode, tier)
+        scenes, rejected = enumerate_scenes(scenA, mode, tier, keep=lambda sc: encode_scene(scenA, sc))
     except OutOfFragment as e:
         raise HarnessError(f"C18 program {name} leaves the RNG fragment ({e}); declare it 'seeds'\n{text}")
     st["scenes"] = len(scenes)
     st["rejected"] = rejected
     pstate = {"seen": set(), "hangs": {}}
-    for origin, scene in scenes:
-        data = check_encoding(prog, scenA, scenB, origin, scene, st, viol, do_faults=do_faults, pstate=pstate)
+    for origin, encoded in scenes:
+        data = check_encoding(prog, scenA, scenB, origin, encoded, st, viol, do_faults=do_faults, pstate=pstate)
         if res["sample"] is None and data is not None:
             res["sample"] = data.hex()
     # (2b) the same text compiled with other options / one more statement must refuse
@@ -656,6 +687,7 @@ def check_value_codecs(_):
         ser.writeValue(v, ty)
         data = ser.getBytes()
         case = {"kind": "value", "type": tname, "value": repr(v), "hex": data.hex()}
+        vrepr = repr(v) if len(repr(v)) <= 48 else repr(v)[:20] + f"...({len(repr(v))} chars)"
         out = _read_value(ty, data)
         counts["roundtrip"] += 1
         if out[0] != "value" or canon(out[1]) != canon(v) or type(out[1]) is not type(v):
@@ -668,6 +700,9 @@ def check_value_codecs(_):
         if ty is int:
             c = codec.int_class(v)
             st["int_classes"][c] = st["int_classes"].get(c, 0) + 1
+            if len(data) != codec.int_encoded_len(v):
+                viol.append((f"int-encoding-width:{c}", f"int {vrepr} is encoded in {len(data)} bytes ({data.hex()[:40]}); the format stores it in its narrowest width class "
+                             f"({c}: {codec.int_encoded_len(v)} bytes; 0..252 one byte, then int16, int32, length-prefixed)", case))
         for k in range(len(data)):
             out = _read_value(ty, data[:k])
             counts["trunc"] += 1
@@ -675,10 +710,10 @@ def check_value_codecs(_):
             if out[0] == "refused":
                 counts["trunc_refused"] += 1
             elif out[0] == "value":
-                viol.append((f"value-truncated-accepted:{kind}", f"{tname} {v!r} encoded as {data.hex() if len(data) < 40 else data[:40].hex() + '...'} ({len(data)} bytes): "
+                viol.append((f"value-truncated-accepted:{kind}", f"{tname} {vrepr} encoded as {data.hex() if len(data) < 40 else data[:40].hex() + '...'} ({len(data)} bytes): "
                              f"the {k}-byte prefix decodes to {out[1]!r:.80} instead of raising SerializationError", dict(case, cut=k)))
             else:
-                viol.append((f"value-truncation-{_outcome_sig(out)}:{kind}", f"{tname} {v!r}: {k}-byte prefix: {out}", dict(case, cut=k)))
+                viol.append((f"value-truncation-{_outcome_sig(out)}:{kind}", f"{tname} {vrepr}: {k}-byte prefix: {out}", dict(case, cut=k)))
         if len(data) > 64:
             offsets = list(range(0, 8)) + list(range(len(data) - 4, len(data)))  # long payloads: both ends (payload bytes are homogeneous)
         else:
@@ -696,7 +731,7 @@ def check_value_codecs(_):
                 elif out[0] == "value":
                     counts["corr_value"] += 1
                 else:
-                    viol.append((f"value-corruption-{_outcome_sig(out)}:{kind}", f"{tname} {v!r} = {data.hex()[:80]}: byte {off} -> {nb:#04x}: {out}", dict(case, off=off, edit=ename)))
+                    viol.append((f"value-corruption-{_outcome_sig(out)}:{kind}", f"{tname} {vrepr} = {data.hex()[:80]}: byte {off} -> {nb:#04x}: {out}", dict(case, off=off, edit=ename)))
     st["value_codec"] = counts["roundtrip"] + counts["trunc"] + counts["corr"]
     return {"stats": st, "violations": viol, "counts": counts}
 
@@ -769,11 +804,11 @@ def run_sim(simulator, scene, maxSteps, **kw):
 
 
 def new_dyn_stats():
-    return {"recordings": 0, "rejected_runs": 0, "replays": 0, "replays_equal": 0, "replay_rng_points": 0, "rt_values": 0,
+    return {"recordings": 0, "recordings_fault_enumerated": 0, "rejected_runs": 0, "replays": 0, "replays_equal": 0, "replay_rng_points": 0, "rt_values": 0,
             "replay_bytes": 0, "sim_encodings": 0,
             "perturbations": 0, "diverged": 0, "not_diverged": 0, "perturb_expected_div": 0, "perturb_expected_ok": 0,
             "div_props": {}, "continue_after": 0,
-            "replay_corruptions": 0, "rc_completed": 0, "rc_refused": 0, "rc_diverged": 0, "rc_rejected": 0, "rc_escape": 0,
+            "replay_corruptions": 0, "rc_completed": 0, "rc_refused": 0, "rc_diverged": 0, "rc_rejected": 0, "rc_escape": 0, "rc_downstream": {},
             "replay_truncations": 0, "rt_completed": 0, "rt_refused": 0,
             "simbytes_truncations": 0, "simbytes_refused": 0,
             "scenes": 0, "int_classes": {}}
@@ -805,8 +840,23 @@ def replay_outcome(simulator, scene, maxSteps, replay, which, **kw):
             return ("diverged", str(e)), len(ex.points)
         if isinstance(e, SerializationError):
             return ("refused", str(e)), len(ex.points)
-        return ("escape", type(e).__name__, str(e)[:160]), len(ex.points)
+        return ("escape" if _raised_while_decoding(e) else "downstream", type(e).__name__, str(e)[:160]), len(ex.points)
     return out, len(ex.points)
+
+
+_DECODE_FRAMES = {"replaySampledValue", "deserializeValue", "readValue", "readSamplable", "readReplayHeader", "initializeReplay", "readInt", "readBytes", "readStr", "readFloat", "decodeFrom"}
+
+
+def _raised_while_decoding(e):
+    """Did the exception come out of Scenic's replay-decoding code (as opposed to the program
+    failing later because a successfully decoded value was wrong)?"""
+    tb = e.__traceback__
+    while tb is not None:
+        code = tb.tb_frame.f_code
+        if code.co_name in _DECODE_FRAMES or code.co_filename.endswith("scenic/core/serialization.py"):
+            return True
+        tb = tb.tb_next
+    return False
 
 
 def check_dynamic(item):
@@ -869,9 +919,10 @@ def check_recording(prog, scenA, scenB, simulator, origin, scene, path, sim, log
     base = {"origin": _origin_json(origin), "path": path, "replay_hex": replay.hex()}
     kw = {"enableDivergenceCheck": div}
     want = only.get("what") if only else None
+    simdata = None
 
     # (4) replay under two other RNG paths, three routes
-    if want in (None, "replay"):
+    if want in (None, "replay", "replay-corruption"):
         try:
             simdata = scenA.simulationToBytes(sim)
             st["sim_encodings"] += 1
@@ -899,8 +950,22 @@ def check_recording(prog, scenA, scenB, simulator, origin, scene, path, sim, log
                 else:
                     st["replays_equal"] += 1
 
-    if want in (None, "replay-corruption") and (tier != "quick" or idx % 3 == 0 or only):
+    if want in (None, "replay-corruption") and (only or st["recordings"] <= (1 if div and tier == "quick" else REPLAY_FAULT_RECORDINGS[tier])):
+        st["recordings_fault_enumerated"] += 1
         check_replay_faults(prog, simulator, scene, replay, spans, view0, st, viol, base, kw)
+        if simdata is not None:
+            # every prefix of simulationToBytes that ends before the replay body must be refused
+            scene_len = len(simdata) - len(replay)
+            for k in range(scene_len + codec.REPLAY_HEADER_LEN):
+                out, _ = _from_bytes(scenA, simdata[:k], simulator, steps, 0, kw)
+                st["simbytes_truncations"] += 1
+                if out[0] == "refused":
+                    st["simbytes_refused"] += 1
+                else:
+                    where = codec.field_at(codec.layout(scenA, simdata[:scene_len])[0], k) if k < scene_len else codec.field_at(codec.replay_layout(replay, spans), k - scene_len)
+                    viol.append((f"simulation-truncated-{'accepted' if out[0] in ('sim', 'rejected') else _outcome_sig(out)}:{where}",
+                                 f"the {k}-byte prefix of simulationToBytes (scene part {scene_len} bytes + replay {len(replay)} bytes) {simdata.hex()} gave {out[0] if out[0] == 'sim' else out} instead of SerializationError\n{text}",
+                                 _dcase(prog, what="replay-corruption", simcut=k, **base)))
 
     # (5) divergence
     if div and want in (None, "divergence"):
@@ -948,6 +1013,8 @@ def check_replay_faults(prog, simulator, scene, replay, spans, view0, st, viol, 
                 viol.append((f"replay-truncated-accepted:{kind}", f"{k}-byte prefix of replay {replay.hex()} (inside the header) was accepted\n{text}", _dcase(prog, what="replay-corruption", cut=k, **base)))
         elif out[0] in ("refused", "diverged"):
             st["rt_refused"] += 1
+        elif out[0] == "downstream":
+            st["rc_downstream"][out[1]] = st["rc_downstream"].get(out[1], 0) + 1
         else:
             viol.append((f"replay-truncation-{_outcome_sig(out)}:{kind}", f"{k}-byte prefix of replay {replay.hex()} (cut inside {kind}): {out}\n{text}", _dcase(prog, what="replay-corruption", cut=k, **base)))
     for off in range(len(replay)):
@@ -969,6 +1036,9 @@ def check_replay_faults(prog, simulator, scene, replay, spans, view0, st, viol, 
                 st["rc_refused"] += 1
             elif out[0] == "diverged":
                 st["rc_diverged"] += 1
+            elif out[0] == "downstream":
+                # the corrupted bytes decoded to a (wrong) value and the program failed later on it: not judged
+                st["rc_downstream"][out[1]] = st["rc_downstream"].get(out[1], 0) + 1
             else:
                 st["rc_escape"] += 1
                 viol.append((f"replay-corruption-{_outcome_sig(out)}:{kind}", f"replay {replay.hex()} with byte {off} ({kind}) {replay[off]:#04x} -> {nb:#04x}: simulate(replay=...) raised {out[1:]} "
@@ -1060,7 +1130,13 @@ def check_divergence(prog, scene, replay, sim, st, viol, base, tier, only):
 
 
 def run(ctx):
+    import gc
+
     seams.rng_selftest()
+    # everything imported so far is permanent: keep the collector (and copy-on-write in the forked
+    # workers) away from it
+    gc.collect()
+    gc.freeze()
     tier = ctx.tier
     static = gen.static_programs(tier)
     dynamic = gen.dynamic_programs(tier)
@@ -1171,11 +1247,8 @@ def replay(ctx, case):
         prog = (0, case["name"], case["feature"], case["text"], case["mode"], case["steps"], case["div"])
         only = {"origin": case["origin"], "path": case["path"], "what": case.get("what"), "pert": case.get("pert")}
         r = check_dynamic((prog, "thorough", only))
-        viol = r["violations"]
-        if case.get("pert") is None and case.get("off") is not None:
-            viol = [v for v in viol if v[2].get("off") == case["off"] and v[2].get("edit") == case["edit"]]
-        if case.get("cut") is not None:
-            viol = [v for v in viol if v[2].get("cut") == case["cut"]]
+        keys = ("what", "pert", "off", "edit", "cut", "simcut")
+        viol = [v for v in r["violations"] if all(v[2].get(k) == case.get(k) for k in keys)]
     elif kind == "foreign":
         prog = _as_prog(case)
         f = case["foreign"]
@@ -1193,7 +1266,7 @@ def replay(ctx, case):
         scenB = compile_scenario(prog[3], prog[5])
         origin, scene = _find_scene(scenA, prog[4], case["origin"], "thorough")
         st = new_stats()
-        check_encoding(prog, scenA, scenB, origin, scene, st, viol, do_faults=True, only=kind)
+        check_encoding(prog, scenA, scenB, origin, encode_scene(scenA, scene), st, viol, do_faults=True, only=kind)
         if kind == "truncation":
             viol = [v for v in viol if v[2].get("cut") == case["cut"]]
         elif kind == "corruption":
